@@ -86,14 +86,23 @@ def run(tie, name, check=None):
             rc, out = sh(['/venv/bin/python', os.path.join(HERE, 'tools/translate', tr + '2lean.py'), repo])
             st.append('untranslatable: ' + out.strip().split('untranslatable: ')[-1] if rc == 3 else out.strip())
         res['translator'] = '; '.join(st)
-        t0 = time.time()
-        rc, out = sh(['lake', 'build', T['module']], cwd=os.path.join(HERE, 'lean'))
-        res['tie'] = 'holds' if rc == 0 else 'fails'
-        res['build_s'] = round(time.time() - t0, 1)
-        if rc != 0:
-            res['first_errors'] = [e[:170] for e in re.findall(r'^error: (.*)$', out, re.M)[:3]]
-        if check:
+        if not check:
+            t0 = time.time()
+            rc, out = sh(['lake', 'build', T['module']], cwd=os.path.join(HERE, 'lean'))
+            res['tie'] = 'holds' if rc == 0 else 'fails'
+            res['build_s'] = round(time.time() - t0, 1)
+            if rc != 0:
+                res['first_errors'] = [e[:170] for e in re.findall(r'^error: (.*)$', out, re.M)[:3]]
+        else:
+            # the check regenerates everything it depends on from the clone and builds the tie itself: take its verdict
+            t0 = time.time()
             rc, out = sh([os.path.join(HERE, 'check'), check, 'quick'], cwd=HERE, env=dict(os.environ, VERIF_REPO=repo))
+            res['check_s'] = round(time.time() - t0, 1)
+            ev = json.load(open(os.path.join(HERE, 'evidence', check + '.json')))
+            tie_ev = ev['coverage'].get('tie', {})
+            res['tie'] = 'holds' if tie_ev.get('checked') else 'fails'
+            res['first_errors'] = tie_ev.get('problems', [])[:3]
+            res['obligations'] = '%s/%s' % (ev['coverage'].get('discharged'), ev['coverage'].get('obligations'))
             res['check'] = [l for l in out.splitlines() if l.startswith(('VIOLATION', 'KNOWN-FINDING', 'OK ', 'INFRA'))]
             for l in res['check']:
                 if 'replay=' in l:
@@ -122,7 +131,10 @@ def main():
     finally:
         for tr in TIES[tie]['translators']:
             sh(['/venv/bin/python', os.path.join(HERE, 'tools/translate', tr + '2lean.py'), '/repo'])
-        sh(['lake', 'build', TIES[tie]['module'], 'driver'], cwd=os.path.join(HERE, 'lean'))
+        if check:
+            sh([os.path.join(HERE, 'setup.sh')])          # every Generated file back in step with /repo
+        else:
+            sh(['lake', 'build', TIES[tie]['module'], 'driver'], cwd=os.path.join(HERE, 'lean'))
     dest = os.path.join(HERE, 'DESIGN-notes', tie + ('-tie-checks.json' if check else '-tie-edits.json'))
     old = {}
     if os.path.exists(dest):
